@@ -406,6 +406,9 @@ class Program:
         return res
 
 
+LOADED = []      # every program a check has loaded (main.py runs the build-independence lint over them)
+
+
 def load_program(units, extra_roots=(), extra_args=()):
     t0 = time.time()
     paths = extract(units, extra_roots, extra_args)
@@ -413,4 +416,5 @@ def load_program(units, extra_roots=(), extra_args=()):
     for p in paths:
         prog.load(p)
     prog.extract_s = time.time() - t0
+    LOADED.append(prog)
     return prog
